@@ -1,6 +1,7 @@
 package main
 
 import (
+	"net"
 	"context"
 	"encoding/json"
 	"fmt"
@@ -665,11 +666,93 @@ func c14FirstCalls(ctx *Ctx, i int, rounds int) {
 	ctx.Emit(Case{I: i, Kind: "first-calls", Desc: map[string]interface{}{"rounds": rounds}, Monitor: mon})
 }
 
+// ---------- the service a handler finds in its context ----------
+
+// WhoService reports which service its handlers find in their context and calls back over it.
+type WhoService struct {
+	name  string
+	inner *jsonrpc2.Local // when set, Relay hands the request on to this in-process service
+	seen  *sync.Map       // handler name -> description of the service found
+}
+
+func (w *WhoService) Who(ctx context.Context, depth int) (string, error) {
+	svc, err := jsonrpc2.CtxService(ctx)
+	if err != nil {
+		return "", err
+	}
+	w.seen.Store(w.name, fmt.Sprintf("%T %p", svc, svc))
+	if depth > 0 { // call back over the service the request arrived on
+		var out string
+		if err := svc.Call(ctx, &out, "who", depth-1); err != nil {
+			return "", fmt.Errorf("%s: call-back failed: %v", w.name, err)
+		}
+	}
+	return w.name, nil
+}
+
+// Relay serves a request by calling an in-process Local service with the request's own context.
+func (w *WhoService) Relay(ctx context.Context, depth int) (string, error) {
+	var out string
+	if err := w.inner.Call(ctx, &out, "who", depth); err != nil {
+		return "", err
+	}
+	return out, nil
+}
+
+// c14CtxService: a request arrives on a Remote; its handler delegates to an in-process Local
+// (passing its context on), whose handler calls back over "the service the request arrived on":
+// at every level that is the connection (or Local) the request came in through.
+func c14CtxService(ctx *Ctx, i int) {
+	var mon []string
+	seen := &sync.Map{}
+	c1, c2 := net.Pipe()
+	defer c1.Close()
+	defer c2.Close()
+	inner := &jsonrpc2.Local{}
+	innerSvc := &WhoService{name: "inner", seen: seen}
+	if err := inner.Server.Register("", innerSvc); err != nil {
+		fatal("register: %v", err)
+	}
+	sa, sb := &jsonrpc2.Server{}, &jsonrpc2.Server{}
+	outerA := &WhoService{name: "a", seen: seen}
+	outerB := &WhoService{name: "b", seen: seen, inner: inner}
+	sa.Register("", outerA)
+	sb.Register("", outerB)
+	ra := &jsonrpc2.Remote{Codec: jsonrpc2.IOCodec(c1), Server: sa, Client: &jsonrpc2.Client{}}
+	rb := &jsonrpc2.Remote{Codec: jsonrpc2.IOCodec(c2), Server: sb, Client: &jsonrpc2.Client{}}
+	go ra.Serve()
+	go rb.Serve()
+	cctx, cancel := context.WithTimeout(context.Background(), 5*time.Second)
+	defer cancel()
+	var out string
+	// (1) plain nesting between the two ends of the connection
+	if err := ra.Call(cctx, &out, "who", 3); err != nil {
+		mon = append(mon, fmt.Sprintf("c14-nested-callback-failed: a nested call-back chain of depth 3 over one connection failed: %v", err))
+	}
+	if v, ok := seen.Load("b"); ok && v.(string) != fmt.Sprintf("%T %p", rb, rb) {
+		mon = append(mon, fmt.Sprintf("c14-wrong-context-service: the handler on side B found %s in its context, the request arrived on %T %p", v, rb, rb))
+	}
+	if v, ok := seen.Load("a"); ok && v.(string) != fmt.Sprintf("%T %p", ra, ra) {
+		mon = append(mon, fmt.Sprintf("c14-wrong-context-service: the handler on side A found %s in its context, the request arrived on %T %p", v, ra, ra))
+	}
+	// (2) a handler on B hands the request to an in-process Local, whose handler calls back
+	if err := ra.Call(cctx, &out, "relay", 2); err != nil {
+		mon = append(mon, fmt.Sprintf("c14-nested-callback-failed: a request relayed by a handler to an in-process service, whose handler calls back twice, failed: %v", err))
+	}
+	if v, ok := seen.Load("inner"); ok && v.(string) != fmt.Sprintf("%T %p", inner, inner) {
+		mon = append(mon, fmt.Sprintf("c14-wrong-context-service: the handler of the in-process service found %s in its context, the request arrived through %T %p", v, inner, inner))
+	}
+	ctx.Emit(Case{I: i, Kind: "context-service", Desc: map[string]interface{}{"levels": 3}, Monitor: mon})
+}
+
 func runC14(ctx *Ctx) {
 	n := ctx.N(150, 3000)
 	forEachCase(ctx, n, func(i int, rng *rand.Rand) { c14Scripted(ctx, i, rng) })
 	if ctx.Want(n + 1000) {
 		c14FirstCalls(ctx, n+1000, ctx.N(3000, 60000))
+	}
+	if ctx.Want(n + 1001) {
+		c14CtxService(ctx, n+1001)
 	}
 	m := ctx.N(10, 120)
 	for c := 0; c < m; c++ {
